@@ -39,7 +39,7 @@ var table = map[string]struct {
 	"runtime":       {"simrt", set("NumCPU GOMAXPROCS Gosched")},
 	"math/rand":     {"simrand", set("Intn Int63n Int31n Int Int63 Int31 Uint32 Float64 Float32 Perm Shuffle Seed")},
 	"math/rand/v2":  {"simrand", set("IntN Int Uint32 Float64 Float32 Perm Shuffle")},
-	"time":          {"simtime", set("Now Since Until Sleep")},
+	"time":          {"simtime", set("Now Since Until Sleep After AfterFunc NewTimer Timer NewTicker Ticker Tick")},
 }
 
 func atomicFuncs() string {
